@@ -148,6 +148,42 @@ PHASE_BUDGET = {'quick': 150.0, 'thorough': 720.0}       # seconds of generation
 MAX_VIOLATIONS = 40                                       # enough concrete inputs: stop generating
 
 
+class HardStop(BaseException):
+    """raised by the watchdog inside a single read()/write() call that does not return (not an Exception: the
+    `except Exception` around the implementation calls must not swallow it)"""
+
+
+class watchdog:
+    """with watchdog(budget, seconds): ... -> the block is abandoned (HardStop) when it runs longer than `seconds`"""
+    def __init__(self, budget, seconds, where):
+        self.budget, self.seconds, self.where = budget, seconds, where
+
+    def __enter__(self):
+        import signal
+
+        def fire(signum, frame):
+            raise HardStop(self.where)
+        try:
+            self.old = signal.signal(signal.SIGALRM, fire)
+            signal.setitimer(signal.ITIMER_REAL, self.seconds)
+        except ValueError:              # not in the main thread: no watchdog
+            self.old = None
+        return self
+
+    def __exit__(self, et, ev, tb):
+        import signal
+        if self.old is not None:
+            signal.setitimer(signal.ITIMER_REAL, 0)
+            signal.signal(signal.SIGALRM, self.old)
+        if et is HardStop:
+            if not self.budget.stopped:
+                self.budget.stopped = 'time budget: a single implementation call did not return within the hard limit of %.0f s for %s' % (self.seconds, self.where)
+                self.budget.ctx.log('generation stopped: ' + self.budget.stopped)
+                self.budget.ctx.cov['generation_stopped'] = self.budget.stopped
+            return True
+        return False
+
+
 class Budget:
     def __init__(self, ctx):
         self.ctx = ctx
@@ -186,6 +222,14 @@ class Oracle:
         w, exc = impl_write_exc(x, 14)
         return w if w is not None else 'write:' + (exc or '').split(':')[0]
 
+    def contaminated(self, why):
+        """state leaks between instances: every later observation in this process is unreliable (and encodings may grow
+        without bound) - stop generating, report what was found"""
+        if not self.budget.stopped:
+            self.budget.stopped = 'state shared between instances detected (%s): later results would be contaminated' % why
+            self.ctx.log('generation stopped: ' + self.budget.stopped)
+            self.ctx.cov['generation_stopped'] = self.budget.stopped
+
     def take_baseline(self):
         for _, name, c, _ in all_struct_classes():
             self.baseline[c] = self.default_encoding(c)
@@ -205,6 +249,7 @@ class Oracle:
                                'after': now.hex() if isinstance(now, bytes) else now},
                               {'affected_class': t.__name__})
                     self.baseline[t] = now          # report each change once
+                    self.contaminated('a fresh %s() no longer encodes as at start-up' % t.__name__)
                     return False
         return True
 
@@ -213,9 +258,11 @@ class Oracle:
         again, r = impl_read(cls, bs, v)
         if again is None:
             self.fail(cname, v, 'decoding-twice-differs', bs, {'steps': ['decode the input', 'decode the input again'], 'second': 'refused: ' + r})
+            self.contaminated('decoding the same bytes twice gives different results')
             return False
         w2 = impl_write(again, v)
         if w2 != w or same_obj(obj, again) is False:
+            self.contaminated('decoding the same bytes twice gives different results')
             self.fail(cname, v, 'decoding-twice-differs', bs,
                       {'steps': ['a = decode(input); wa = write(a)', 'b = decode(input) with a fresh %s; wb = write(b)' % cname, 'wa != wb or a != b'],
                        'first_reencoding': w.hex(), 'second_reencoding': w2.hex() if w2 else None})
@@ -232,6 +279,8 @@ class Oracle:
 
     def accepted(self, cname, cls, v, bs, obj, rest, valid, other_versions=()):
         """bs was accepted by cls.read under v giving obj.  valid: bs is the canonical encoding of a generated value."""
+        if self.budget.stopped:
+            return None
         self.n += 1
         c = self.ctx
         w, exc = impl_write_exc(obj, v)
@@ -273,6 +322,8 @@ class Oracle:
         to an equal value (finds readers that are stricter than their writers)."""
         import copy
         c = self.ctx
+        if self.budget.stopped:
+            return
         try:
             x = copy.deepcopy(full_obj)
         except Exception:
@@ -315,6 +366,8 @@ class Oracle:
 
     def constructed(self, cname, x, v, must_encode=False, other_versions=(), how=''):
         """x was built through public constructors: read(write(x)) == x, write(read(write(x))) == write(x), purity."""
+        if self.budget.stopped:
+            return None
         c = self.ctx
         cls = type(x)
         w, exc = impl_write_exc(x, v)
@@ -1113,9 +1166,11 @@ def run(ctx):
     for i in bad[:20]:
         ctx.disagreement('prims', {'case': pmeta[i], 'coq': pcases[i][:400]})
 
-    oracle.take_baseline()
-    probes(ctx, oracle)
-    constructed_objects(ctx, oracle)
+    hard = 2.0 * PHASE_BUDGET.get(ctx.tier, 150.0)
+    with watchdog(oracle.budget, hard, 'baseline, probes and constructed objects'):
+        oracle.take_baseline()
+        probes(ctx, oracle)
+        constructed_objects(ctx, oracle)
 
     header = HEADER
     if not ok_regen:
@@ -1139,13 +1194,15 @@ def run(ctx):
                 lost = {c['name'] for c in stale['classes']} - {c['name'] for c in doc['classes']}
                 if lost:
                     ctx.log('oracle-only generation from the last good schema for: %s' % ', '.join(sorted(lost)))
-                    _c, _m, lost_stats = struct_cases(ctx, stale, oracle, only=lost)
-                    ctx.cov['oracle_only_from_last_good_schema'] = lost_stats
+                    with watchdog(oracle.budget, hard, 'oracle-only generation from the last good schema'):
+                        _c, _m, lost_stats = struct_cases(ctx, stale, oracle, only=lost)
+                        ctx.cov['oracle_only_from_last_good_schema'] = lost_stats
             except Exception as e:
                 ctx.log('no usable last good schema: %s' % e)
         except Exception as e:
             ctx.log('no partial environment either: %s' % e)
-            harvested_oracle(ctx, oracle, set())
+            with watchdog(oracle.budget, hard, 'the harvested encodings'):
+                harvested_oracle(ctx, oracle, set())
             budget_verdict(ctx, oracle)
             return
     else:
@@ -1177,7 +1234,9 @@ def run(ctx):
                            'candidates': []})
 
     # --- structures: correspondence + oracle
-    cases, meta, per_class = struct_cases(ctx, doc, oracle)
+    cases, meta, per_class = [], [], {}
+    with watchdog(oracle.budget, hard, 'the structure generator'):
+        cases, meta, per_class = struct_cases(ctx, doc, oracle)
     ctx.cov['per_class'] = per_class
     bad = ctx.run_cases('structs', header, cases, 'check_scase E %d' % FUEL,
                         what='rd/wr of Codec/Schema.v under the regenerated E vs read()/write() of the real classes')
@@ -1190,7 +1249,8 @@ def run(ctx):
             ctx.sample({'struct_case': meta[i], 'coq': cases[i][:300]})
 
     # --- all classes, including the hand-modelled ones: harvested unit-test encodings through the real classes only
-    harvested_oracle(ctx, oracle, t_classes)
+    with watchdog(oracle.budget, hard, 'the harvested encodings'):
+        harvested_oracle(ctx, oracle, t_classes)
     ctx.cov['oracle_objects_checked'] = oracle.n
     budget_verdict(ctx, oracle)
     ctx.cov['trusted_extra'] = [
